@@ -50,6 +50,12 @@ def gen(ctx):
         rng = random.Random(sub)
         out.append({"seed": sub, "solver": s, "problem": SHIPPED[p], "config": solver_cfg(s, rng), "k": rng.choice([3, 4]),
                     "two_calls": s != "pi" and rng.random() < 0.5, "async": rng.random() < 0.5})
+    # directed: retained step numbers that straddle a power of ten (9, 10, 11) - "latest" must be numeric, not lexicographic
+    for s, p in [("vi", 0), (ctx.rng.choice(["rvi", "pvi", "savi"]), ctx.rng.choice([0, 1]))]:
+        sub = ctx.rng.randrange(10 ** 9)
+        rng = random.Random(sub)
+        out.append({"seed": sub, "solver": s, "problem": SHIPPED[p], "config": solver_cfg(s, rng), "k": 11, "two_calls": False, "async": rng.random() < 0.5,
+                    "straddles_power_of_ten": True})
     return out
 
 
